@@ -287,7 +287,8 @@ package document
 // resolves, in the document relationship list, to a relationship of the right type whose target is the part of THAT kind
 //@ ensures err == nil && old(noSect(d.Body.Elements)) ==> hdrCanon(d.Body.Elements[old(len(d.Body.Elements))].(*SectionProperties).HeaderReferences, d.documentRelationships.Relationships) && ftrCanon(d.Body.Elements[old(len(d.Body.Elements))].(*SectionProperties).FooterReferences, d.documentRelationships.Relationships)
 //@ ensures err == nil ==> forall s *SectionProperties :: {s.HeaderReferences} allocated(s) && old(isFirstSect(d.Body.Elements, s)) && old(hdrNone(s.HeaderReferences, string(headerType))) && old(hdrCanon(s.HeaderReferences, d.documentRelationships.Relationships)) ==> hdrCanon(s.HeaderReferences, d.documentRelationships.Relationships)
-//@ ensures err == nil ==> forall s *SectionProperties, k int :: {s.HeaderReferences[k]} allocated(s) && old(isFirstSect(d.Body.Elements, s)) && old(hdrFirstAt(s.HeaderReferences, k, string(headerType))) && old(hdrCanon(s.HeaderReferences, d.documentRelationships.Relationships)) ==> s.HeaderReferences[k] == old(s.HeaderReferences[k]) && hdrCanon(s.HeaderReferences, d.documentRelationships.Relationships)
+//@ ensures err == nil ==> forall s *SectionProperties, k int :: {s.HeaderReferences[k]} allocated(s) && old(isFirstSect(d.Body.Elements, s)) && old(hdrFirstAt(s.HeaderReferences, k, string(headerType))) && old(hdrCanon(s.HeaderReferences, d.documentRelationships.Relationships)) ==> s.HeaderReferences[k] == old(s.HeaderReferences[k])
+//@ ensures err == nil ==> forall s *SectionProperties, k int :: {s.HeaderReferences[k]} allocated(s) && old(isFirstSect(d.Body.Elements, s)) && old(hdrFirstAt(s.HeaderReferences, k, string(headerType))) && old(hdrCanon(s.HeaderReferences, d.documentRelationships.Relationships)) ==> hdrCanon(s.HeaderReferences, d.documentRelationships.Relationships)
 //@ ensures err == nil ==> forall s *SectionProperties :: {s.FooterReferences} allocated(s) && old(isFirstSect(d.Body.Elements, s)) && old(ftrCanon(s.FooterReferences, d.documentRelationships.Relationships)) ==> ftrCanon(s.FooterReferences, d.documentRelationships.Relationships)
 //@ ensures unchangedExcept("map:string:[]byte", "Relationships.Relationships", "Relationship.*", "ContentTypes.Overrides", "Override.*", "Body.Elements", "cell:any", "SectionProperties.XmlnsR", "SectionProperties.HeaderReferences", "HeaderFooterReference.ID", "cell:*HeaderFooterReference")
 
@@ -345,7 +346,8 @@ package document
 // resolves, in the document relationship list, to a relationship of the right type whose target is the part of THAT kind
 //@ ensures err == nil && old(noSect(d.Body.Elements)) ==> hdrCanon(d.Body.Elements[old(len(d.Body.Elements))].(*SectionProperties).HeaderReferences, d.documentRelationships.Relationships) && ftrCanon(d.Body.Elements[old(len(d.Body.Elements))].(*SectionProperties).FooterReferences, d.documentRelationships.Relationships)
 //@ ensures err == nil ==> forall s *SectionProperties :: {s.FooterReferences} allocated(s) && old(isFirstSect(d.Body.Elements, s)) && old(ftrNone(s.FooterReferences, string(footerType))) && old(ftrCanon(s.FooterReferences, d.documentRelationships.Relationships)) ==> ftrCanon(s.FooterReferences, d.documentRelationships.Relationships)
-//@ ensures err == nil ==> forall s *SectionProperties, k int :: {s.FooterReferences[k]} allocated(s) && old(isFirstSect(d.Body.Elements, s)) && old(ftrFirstAt(s.FooterReferences, k, string(footerType))) && old(ftrCanon(s.FooterReferences, d.documentRelationships.Relationships)) ==> s.FooterReferences[k] == old(s.FooterReferences[k]) && ftrCanon(s.FooterReferences, d.documentRelationships.Relationships)
+//@ ensures err == nil ==> forall s *SectionProperties, k int :: {s.FooterReferences[k]} allocated(s) && old(isFirstSect(d.Body.Elements, s)) && old(ftrFirstAt(s.FooterReferences, k, string(footerType))) && old(ftrCanon(s.FooterReferences, d.documentRelationships.Relationships)) ==> s.FooterReferences[k] == old(s.FooterReferences[k])
+//@ ensures err == nil ==> forall s *SectionProperties, k int :: {s.FooterReferences[k]} allocated(s) && old(isFirstSect(d.Body.Elements, s)) && old(ftrFirstAt(s.FooterReferences, k, string(footerType))) && old(ftrCanon(s.FooterReferences, d.documentRelationships.Relationships)) ==> ftrCanon(s.FooterReferences, d.documentRelationships.Relationships)
 //@ ensures err == nil ==> forall s *SectionProperties :: {s.HeaderReferences} allocated(s) && old(isFirstSect(d.Body.Elements, s)) && old(hdrCanon(s.HeaderReferences, d.documentRelationships.Relationships)) ==> hdrCanon(s.HeaderReferences, d.documentRelationships.Relationships)
 //@ ensures unchangedExcept("map:string:[]byte", "Relationships.Relationships", "Relationship.*", "ContentTypes.Overrides", "Override.*", "Body.Elements", "cell:any", "SectionProperties.XmlnsR", "SectionProperties.FooterReferences", "FooterReference.ID", "cell:*FooterReference")
 
@@ -419,7 +421,8 @@ package document
 // resolves, in the document relationship list, to a relationship of the right type whose target is the part of THAT kind
 //@ ensures err == nil && old(noSect(d.Body.Elements)) ==> hdrCanon(d.Body.Elements[old(len(d.Body.Elements))].(*SectionProperties).HeaderReferences, d.documentRelationships.Relationships) && ftrCanon(d.Body.Elements[old(len(d.Body.Elements))].(*SectionProperties).FooterReferences, d.documentRelationships.Relationships)
 //@ ensures err == nil ==> forall s *SectionProperties :: {s.HeaderReferences} allocated(s) && old(isFirstSect(d.Body.Elements, s)) && old(hdrNone(s.HeaderReferences, string(headerType))) && old(hdrCanon(s.HeaderReferences, d.documentRelationships.Relationships)) ==> hdrCanon(s.HeaderReferences, d.documentRelationships.Relationships)
-//@ ensures err == nil ==> forall s *SectionProperties, k int :: {s.HeaderReferences[k]} allocated(s) && old(isFirstSect(d.Body.Elements, s)) && old(hdrFirstAt(s.HeaderReferences, k, string(headerType))) && old(hdrCanon(s.HeaderReferences, d.documentRelationships.Relationships)) ==> s.HeaderReferences[k] == old(s.HeaderReferences[k]) && hdrCanon(s.HeaderReferences, d.documentRelationships.Relationships)
+//@ ensures err == nil ==> forall s *SectionProperties, k int :: {s.HeaderReferences[k]} allocated(s) && old(isFirstSect(d.Body.Elements, s)) && old(hdrFirstAt(s.HeaderReferences, k, string(headerType))) && old(hdrCanon(s.HeaderReferences, d.documentRelationships.Relationships)) ==> s.HeaderReferences[k] == old(s.HeaderReferences[k])
+//@ ensures err == nil ==> forall s *SectionProperties, k int :: {s.HeaderReferences[k]} allocated(s) && old(isFirstSect(d.Body.Elements, s)) && old(hdrFirstAt(s.HeaderReferences, k, string(headerType))) && old(hdrCanon(s.HeaderReferences, d.documentRelationships.Relationships)) ==> hdrCanon(s.HeaderReferences, d.documentRelationships.Relationships)
 //@ ensures err == nil ==> forall s *SectionProperties :: {s.FooterReferences} allocated(s) && old(isFirstSect(d.Body.Elements, s)) && old(ftrCanon(s.FooterReferences, d.documentRelationships.Relationships)) ==> ftrCanon(s.FooterReferences, d.documentRelationships.Relationships)
 //@ ensures unchangedExcept("map:string:[]byte", "Relationships.Relationships", "Relationship.*", "ContentTypes.Overrides", "Override.*", "Body.Elements", "cell:any", "SectionProperties.XmlnsR", "SectionProperties.HeaderReferences", "HeaderFooterReference.ID", "cell:*HeaderFooterReference")
 
@@ -493,7 +496,8 @@ package document
 // resolves, in the document relationship list, to a relationship of the right type whose target is the part of THAT kind
 //@ ensures err == nil && old(noSect(d.Body.Elements)) ==> hdrCanon(d.Body.Elements[old(len(d.Body.Elements))].(*SectionProperties).HeaderReferences, d.documentRelationships.Relationships) && ftrCanon(d.Body.Elements[old(len(d.Body.Elements))].(*SectionProperties).FooterReferences, d.documentRelationships.Relationships)
 //@ ensures err == nil ==> forall s *SectionProperties :: {s.FooterReferences} allocated(s) && old(isFirstSect(d.Body.Elements, s)) && old(ftrNone(s.FooterReferences, string(footerType))) && old(ftrCanon(s.FooterReferences, d.documentRelationships.Relationships)) ==> ftrCanon(s.FooterReferences, d.documentRelationships.Relationships)
-//@ ensures err == nil ==> forall s *SectionProperties, k int :: {s.FooterReferences[k]} allocated(s) && old(isFirstSect(d.Body.Elements, s)) && old(ftrFirstAt(s.FooterReferences, k, string(footerType))) && old(ftrCanon(s.FooterReferences, d.documentRelationships.Relationships)) ==> s.FooterReferences[k] == old(s.FooterReferences[k]) && ftrCanon(s.FooterReferences, d.documentRelationships.Relationships)
+//@ ensures err == nil ==> forall s *SectionProperties, k int :: {s.FooterReferences[k]} allocated(s) && old(isFirstSect(d.Body.Elements, s)) && old(ftrFirstAt(s.FooterReferences, k, string(footerType))) && old(ftrCanon(s.FooterReferences, d.documentRelationships.Relationships)) ==> s.FooterReferences[k] == old(s.FooterReferences[k])
+//@ ensures err == nil ==> forall s *SectionProperties, k int :: {s.FooterReferences[k]} allocated(s) && old(isFirstSect(d.Body.Elements, s)) && old(ftrFirstAt(s.FooterReferences, k, string(footerType))) && old(ftrCanon(s.FooterReferences, d.documentRelationships.Relationships)) ==> ftrCanon(s.FooterReferences, d.documentRelationships.Relationships)
 //@ ensures err == nil ==> forall s *SectionProperties :: {s.HeaderReferences} allocated(s) && old(isFirstSect(d.Body.Elements, s)) && old(hdrCanon(s.HeaderReferences, d.documentRelationships.Relationships)) ==> hdrCanon(s.HeaderReferences, d.documentRelationships.Relationships)
 //@ ensures unchangedExcept("map:string:[]byte", "Relationships.Relationships", "Relationship.*", "ContentTypes.Overrides", "Override.*", "Body.Elements", "cell:any", "SectionProperties.XmlnsR", "SectionProperties.FooterReferences", "FooterReference.ID", "cell:*FooterReference")
 
@@ -556,7 +560,8 @@ package document
 // resolves, in the document relationship list, to a relationship of the right type whose target is the part of THAT kind
 //@ ensures err == nil && old(noSect(d.Body.Elements)) ==> hdrCanon(d.Body.Elements[old(len(d.Body.Elements))].(*SectionProperties).HeaderReferences, d.documentRelationships.Relationships) && ftrCanon(d.Body.Elements[old(len(d.Body.Elements))].(*SectionProperties).FooterReferences, d.documentRelationships.Relationships)
 //@ ensures err == nil ==> forall s *SectionProperties :: {s.HeaderReferences} allocated(s) && old(isFirstSect(d.Body.Elements, s)) && old(hdrNone(s.HeaderReferences, string(headerType))) && old(hdrCanon(s.HeaderReferences, d.documentRelationships.Relationships)) ==> hdrCanon(s.HeaderReferences, d.documentRelationships.Relationships)
-//@ ensures err == nil ==> forall s *SectionProperties, k int :: {s.HeaderReferences[k]} allocated(s) && old(isFirstSect(d.Body.Elements, s)) && old(hdrFirstAt(s.HeaderReferences, k, string(headerType))) && old(hdrCanon(s.HeaderReferences, d.documentRelationships.Relationships)) ==> s.HeaderReferences[k] == old(s.HeaderReferences[k]) && hdrCanon(s.HeaderReferences, d.documentRelationships.Relationships)
+//@ ensures err == nil ==> forall s *SectionProperties, k int :: {s.HeaderReferences[k]} allocated(s) && old(isFirstSect(d.Body.Elements, s)) && old(hdrFirstAt(s.HeaderReferences, k, string(headerType))) && old(hdrCanon(s.HeaderReferences, d.documentRelationships.Relationships)) ==> s.HeaderReferences[k] == old(s.HeaderReferences[k])
+//@ ensures err == nil ==> forall s *SectionProperties, k int :: {s.HeaderReferences[k]} allocated(s) && old(isFirstSect(d.Body.Elements, s)) && old(hdrFirstAt(s.HeaderReferences, k, string(headerType))) && old(hdrCanon(s.HeaderReferences, d.documentRelationships.Relationships)) ==> hdrCanon(s.HeaderReferences, d.documentRelationships.Relationships)
 //@ ensures err == nil ==> forall s *SectionProperties :: {s.FooterReferences} allocated(s) && old(isFirstSect(d.Body.Elements, s)) && old(ftrCanon(s.FooterReferences, d.documentRelationships.Relationships)) ==> ftrCanon(s.FooterReferences, d.documentRelationships.Relationships)
 //@ ensures unchangedExcept("map:string:[]byte", "Relationships.Relationships", "Relationship.*", "ContentTypes.Overrides", "Override.*", "Body.Elements", "cell:any", "SectionProperties.XmlnsR", "SectionProperties.HeaderReferences", "HeaderFooterReference.ID", "cell:*HeaderFooterReference")
 
@@ -619,7 +624,8 @@ package document
 // resolves, in the document relationship list, to a relationship of the right type whose target is the part of THAT kind
 //@ ensures err == nil && old(noSect(d.Body.Elements)) ==> hdrCanon(d.Body.Elements[old(len(d.Body.Elements))].(*SectionProperties).HeaderReferences, d.documentRelationships.Relationships) && ftrCanon(d.Body.Elements[old(len(d.Body.Elements))].(*SectionProperties).FooterReferences, d.documentRelationships.Relationships)
 //@ ensures err == nil ==> forall s *SectionProperties :: {s.FooterReferences} allocated(s) && old(isFirstSect(d.Body.Elements, s)) && old(ftrNone(s.FooterReferences, string(footerType))) && old(ftrCanon(s.FooterReferences, d.documentRelationships.Relationships)) ==> ftrCanon(s.FooterReferences, d.documentRelationships.Relationships)
-//@ ensures err == nil ==> forall s *SectionProperties, k int :: {s.FooterReferences[k]} allocated(s) && old(isFirstSect(d.Body.Elements, s)) && old(ftrFirstAt(s.FooterReferences, k, string(footerType))) && old(ftrCanon(s.FooterReferences, d.documentRelationships.Relationships)) ==> s.FooterReferences[k] == old(s.FooterReferences[k]) && ftrCanon(s.FooterReferences, d.documentRelationships.Relationships)
+//@ ensures err == nil ==> forall s *SectionProperties, k int :: {s.FooterReferences[k]} allocated(s) && old(isFirstSect(d.Body.Elements, s)) && old(ftrFirstAt(s.FooterReferences, k, string(footerType))) && old(ftrCanon(s.FooterReferences, d.documentRelationships.Relationships)) ==> s.FooterReferences[k] == old(s.FooterReferences[k])
+//@ ensures err == nil ==> forall s *SectionProperties, k int :: {s.FooterReferences[k]} allocated(s) && old(isFirstSect(d.Body.Elements, s)) && old(ftrFirstAt(s.FooterReferences, k, string(footerType))) && old(ftrCanon(s.FooterReferences, d.documentRelationships.Relationships)) ==> ftrCanon(s.FooterReferences, d.documentRelationships.Relationships)
 //@ ensures err == nil ==> forall s *SectionProperties :: {s.HeaderReferences} allocated(s) && old(isFirstSect(d.Body.Elements, s)) && old(hdrCanon(s.HeaderReferences, d.documentRelationships.Relationships)) ==> hdrCanon(s.HeaderReferences, d.documentRelationships.Relationships)
 //@ ensures unchangedExcept("map:string:[]byte", "Relationships.Relationships", "Relationship.*", "ContentTypes.Overrides", "Override.*", "Body.Elements", "cell:any", "SectionProperties.XmlnsR", "SectionProperties.FooterReferences", "FooterReference.ID", "cell:*FooterReference")
 
